@@ -306,7 +306,11 @@ func (vc *FuncVC) loopsOf(fn *ssa.Function) map[*ssa.BasicBlock]*loopInfo {
 		li.mods = map[string]bool{}
 		for b := range li.blocks {
 			for _, in := range b.Instrs {
+				before := li.mods["*"]
 				vc.instrMods(in, li.mods, 0)
+				if !before && li.mods["*"] && os.Getenv("GOVC_DEBUG") != "" {
+					fmt.Fprintf(os.Stderr, "loop %d of %s: everything is modified because of %s (%s)\n", li.ordinal, fn.Name(), in, vc.pos(in.Pos()))
+				}
 			}
 		}
 	}
@@ -589,7 +593,19 @@ func (vc *FuncVC) specMods(sp *FuncSpec, fn *ssa.Function, c *ssa.CallCommon, ou
 	var sig *types.Signature
 	hasRecv := false
 	var actuals []ssa.Value
-	if c.IsInvoke() {
+	recvPrefix := ""
+	if c.IsInvoke() && fn != nil && fn.Signature.Recv() != nil {
+		// an interface call dispatched to this implementation: the receiver is the boxed pointer
+		sig = fn.Signature
+		hasRecv = true
+		actuals = append([]ssa.Value{nil}, c.Args...)
+		if pt, ok := fn.Signature.Recv().Type().Underlying().(*types.Pointer); ok {
+			recvPrefix = typeKey(pt.Elem())
+		} else {
+			out["*"] = true
+			return
+		}
+	} else if c.IsInvoke() {
 		sig = c.Method.Type().(*types.Signature)
 		hasRecv = true
 		actuals = append([]ssa.Value{c.Value}, c.Args...)
@@ -604,6 +620,9 @@ func (vc *FuncVC) specMods(sp *FuncSpec, fn *ssa.Function, c *ssa.CallCommon, ou
 		actuals = c.Args
 	}
 	argPrefix := func(i int) (string, bool) {
+		if i == 0 && recvPrefix != "" {
+			return recvPrefix, true
+		}
 		if i < 0 || i >= len(actuals) {
 			return "", false
 		}
